@@ -107,9 +107,9 @@ CLAIMED["C08"] = dict(
 )
 
 CLAIMED["C17"] = dict(
-    technique="reachability/effect analysis from identify_pytorch_file_format (literal read modes, no write/extract/rename, no module-level state or non-determinism source), literal comparison of the decision table and marker list with the documented ones, def-use of create_polyglot's input paths, acquire/release pairing of temporary artefacts over a CFG with exceptional edges",
-    level="Decides the read-only / deterministic structure of identification, that torch-zip classification is exactly 'all matching rows of the documented table in order' with the PyTorch v1.3 floor row, that polyglot construction only ever copies from its inputs, and that every temporary artefact is removed on every exit. Agreement of the classification with torch's own acceptance on real files, substring-vs-exact member matching, and that a successful polyglot is identified as both constituent formats depend on third-party parsers and data - not decided.",
-    note="Trusted: the documented table/marker list frozen from the property text and the module docstring; audited readers listed in AUDITED_READERS.",
+    technique="finite-domain abstract interpretation (sa/minieval) of identify_pytorch_file_format, find_file_properties, check_and_find_in_zip, check_if_model_archive_format and check_for_corruption over abstract files (all 32 marker subsets x member placement x zip at offset 0 / displaced / absent x tar kind x stacked pickle x model-archive members; answers compared with the documented table), and of check_pickle / StackedPickle.load over abstract streams of pickles; reachability/effect analysis from identify_pytorch_file_format (literal read modes, no write/extract/rename, no module-level state or non-determinism source); def-use of create_polyglot's input paths; acquire/release pairing of temporary artefacts over a CFG with exceptional edges",
+    level="Decides the read-only / deterministic structure of identification; that, given the answers of the third-party probes (torch's _is_zipfile, tarfile/zipfile.is_*, the member list), the answer is exactly the documented rows that match, in the documented order, with the PyTorch v1.3 floor, and only for zips at offset 0, plus exactly the non-zip formats whose evidence is present; that the stacks torch's legacy save writes (first pickle of 2, 3 or 4 opcodes) count as valid pickles and files without a pickle do not; that polyglot construction only ever copies from its inputs; and that every temporary artefact is removed on every exit. Whether the third-party probes answer on real bytes as torch's own loader does, substring-vs-exact member matching on look-alike names, and that a successful polyglot is identified as both constituent formats depend on third-party parsers and data - not decided.",
+    note="Trusted: the documented table/marker list frozen from the property text and the module docstring; audited readers listed in AUDITED_READERS; sa/minieval.py interpreting the functions' own source; the opcode counts of the legacy format's first pickle (LONG STOP / PROTO LONG1 STOP / PROTO FRAME LONG1 STOP).",
 )
 
 CLAIMED["C16"] = dict(
